@@ -73,6 +73,21 @@ def stepBuf (w : CW) : List String → CW × String
         if r = 0 then ({ w with buf := s', bufOk := true }, s!"ok | {bufState s'}")
         else ({ w with bufOk := false }, s!"err {excName s'}")
     | _, _ => (w, "bad-op")
+  | ["c.buf.reinit", cap, dat] =>
+    -- `__init__` again on the live object: the translated Buffer_init runs on the CURRENT state
+    let a0? : Option PyArg := if cap = "bad" then some .other else optArgInt cap
+    match a0?, (if dat = "none" then some none else (ofHex dat).map some) with
+    | some a0, some d =>
+      if !w.bufOk then (w, "err NoBuffer") else
+      let req : PyArg := match d with | some bs => .int bs.length | none => a0
+      let okb := mallocOk req
+      let s0 := withBytes { w.buf with err := none, ora := fun _ => if okb then 1 else 0 } 10 (d.getD [])
+      match CBuffer.Buffer_init a0 (if d.isSome then .bytes else .absent) s0 with
+      | .fault f => (w, showFault f)
+      | .ok r s' =>
+        if r = 0 then ({ w with buf := s' }, s!"ok | {bufState s'}")
+        else ({ w with buf := s' }, s!"err {excName s'} | {bufState s'}")
+    | _, _ => (w, "bad-op")
   | ["c.buf.eof"] => runBufM w CBuffer.Buffer_eof
   | ["c.buf.tell"] => runBufM w CBuffer.Buffer_tell
   | ["c.buf.capacity"] => runBufM w CBuffer.Buffer_capacity_getter
